@@ -452,7 +452,7 @@ def run_impl(c):
         for e in drv.events[nd:]:
             if e[0] == "raise":
                 raised = e[2]
-                events.append(["raise", node_id(e[1]), EXC_KINDS.get(e[2], 0), e[2], wire])
+                events.append(["raise", node_id(e[1]), EXC_KINDS.get(e[2], 0), e[2], wire, node_id(a[1])])
                 if e[2] not in EXC_KINDS:
                     raise RuntimeError("unexpected exception %s: %s" % (e[2], e[3]))
         if is_dir and wire is not None:
@@ -616,6 +616,10 @@ def classify(c, o, msg):
             return "C20-unpublish-agent-mismatch"
     if key[0] == "A" and m["view"] is not None and m["directory"] is None and [n, key] in o["addr_via_comp"]:
         return "C20-dir-unknown-agent-address"
+    if key[0] == "A" and m["view"] != m["directory"] and m["directory"] is not None and any(
+            e[0] == "raise" and e[1] == 0 and e[2] == 1 and e[4] == ["unpub_agent", int(key[1:])] and e[5] == n
+            for e in o["events"]):
+        return "C20-unregister-agent-refused"
     if key[0] == "R":
         r, a = [int(x) for x in key[1:].split(":")]
         if m["view"] is None and any(e[2] == 3 and e[4][:4] == ["pub_rep", r, a, True] for e in raises):
